@@ -63,6 +63,9 @@ type c13Caseless struct {
 	子  *c13Node `valid:"exist"`
 }
 
+// defined string types as map keys (kind string, but not the type string)
+type c13Key string
+
 type c13Call struct {
 	Entry string
 	Desc  string
@@ -159,6 +162,7 @@ func c13Catalogue() []c13Call {
 		{"[]interface{}{map,5}", []interface{}{map[string]string{"a": "1"}, 5}}, {"map[string][]int", map[string][]int{"a": {1}, "b": nil}}, {"map[string]*int", map[string]*int{"a": nil, "b": &five}},
 		{"[2]map[string]int", [2]map[string]int{{"a": 1}, nil}}, {"map[string]map[string]int", map[string]map[string]int{"a": {"x": 1}}}, {"map[string]chan", map[string]chan int{"a": ch}},
 		{"map[string]T", map[string]c13Node{"a": {}}}, {"**map", func() interface{} { p := &mp; return &p }()},
+		{"map[definedString]string", map[c13Key]string{"a": "x", "zz": ""}}, {"map[definedString]int empty", map[c13Key]int{}}, {"[]map[definedString]float64", []map[c13Key]float64{{"a": 1.5}, nil}},
 	}
 	mapRules := []valid.RM{rm, {"a": "either=1", "b": "either=1"}, {"a": "botheq=1", "b": "botheq=1"}, {"a": "exist"}, {"a": "nosuch"}, {"a": "unique,ints,json,in=(1/2)"}, {"": "required"}}
 	for _, x := range maps {
